@@ -1,3 +1,374 @@
-import QcoVerif.Model.Builder
+import QcoVerif.Lemmas.C10Timing
+import QcoVerif.Lemmas.Graph
+/-
+  C01 — relation-based timing: every operation sits where its relation says.
+
+  All statements are about the specification evaluator `evStart/evEnd/evDur/evRef` (Model/Timing.lean; the
+  driver executes the memoised version of the same equations, cross-checked by the `evalcheck` protocol
+  command) and about `World.leafAtAny` / `World.addToGraph` (Model/Builder.lean), which the driver executes.
+
+  `Start w o v` reads "the evaluator answers `v` for the start of `o` at some fuel"; by `ev_mono_step` a defined
+  answer does not depend on the fuel.  Definedness itself (acyclicity of the relation structure for every
+  API-reachable heap) is NOT proved here — it is false after the R14 history (cyclic relation after
+  unroll + flatten); the theorems say what the reported times are whenever they are reported.
+-/
 namespace Qco.C01
+
+open Qco Qco.C10
+
+/-- the reported start time is well defined (independent of the fuel the evaluator was given). -/
+theorem start_well_defined {w : World} {o : Nat} {a b : Int} (ha : Start w o a) (hb : Start w o b) : a = b :=
+  Start.unique ha hb
+
+/-- end = start + duration. -/
+theorem end_eq_start_add_duration {w : World} {o : Nat} {e : Int} (h : End w o e) :
+    ∃ s d, Start w o s ∧ DurV w o d ∧ e = s + d := End.decompose h
+
+/-- an operation whose (effective) link has no reference starts at the origin of its enclosing circuit. -/
+theorem no_relation_starts_at_origin {w : World} {o : Nat} {s : Int} (h : Start w o s)
+    (hr : RefV w (w.op o).link none) : s = 0 := by
+  obtain ⟨d, r, _, hrv, hcase⟩ := Start.decompose h
+  have : r = none := RefV.unique hrv hr
+  subst this
+  rcases hcase with ⟨_, hs⟩ | ⟨r', _, _, hr', _⟩
+  · simpa [linkStart] using hs
+  · cases hr'
+
+/-- FOLLOWED_BY: starts when the referenced operation ends. -/
+theorem followed_by_starts_at_end {w : World} {o r : Nat} {s er : Int} (h : Start w o s)
+    (hr : RefV w (w.op o).link (some r)) (hrel : (w.lnk (w.op o).link).rel = .fb) (he : End w r er) : s = er := by
+  obtain ⟨d, r0, _, hrv, hcase⟩ := Start.decompose h
+  have hr0 : r0 = some r := RefV.unique hrv hr
+  subst hr0
+  rcases hcase with ⟨hn, _⟩ | ⟨r', sr, er', hr', _, he', hs⟩
+  · cases hn
+  · cases hr'
+    have : er' = er := End.unique he' he
+    subst this
+    simpa [linkStart, hrel] using hs
+
+/-- JOINED_START: starts when the referenced operation starts. -/
+theorem joined_start_starts_at_start {w : World} {o r : Nat} {s sr : Int} (h : Start w o s)
+    (hr : RefV w (w.op o).link (some r)) (hrel : (w.lnk (w.op o).link).rel = .js) (hs' : Start w r sr) : s = sr := by
+  obtain ⟨d, r0, _, hrv, hcase⟩ := Start.decompose h
+  have hr0 : r0 = some r := RefV.unique hrv hr
+  subst hr0
+  rcases hcase with ⟨hn, _⟩ | ⟨r', sr', er', hr', hsr, _, hs⟩
+  · cases hn
+  · cases hr'
+    have : sr' = sr := Start.unique hsr hs'
+    subst this
+    simpa [linkStart, hrel] using hs
+
+/-- JOINED_END: ends when the referenced operation ends. -/
+theorem joined_end_ends_at_end {w : World} {o r : Nat} {e er : Int} (h : End w o e)
+    (hr : RefV w (w.op o).link (some r)) (hrel : (w.lnk (w.op o).link).rel = .je) (he : End w r er) : e = er := by
+  obtain ⟨s, d, hs, hd, rfl⟩ := End.decompose h
+  obtain ⟨d', r0, hd', hrv, hcase⟩ := Start.decompose hs
+  have hdd : d' = d := DurV.unique hd' hd
+  subst hdd
+  have hr0 : r0 = some r := RefV.unique hrv hr
+  subst hr0
+  rcases hcase with ⟨hn, _⟩ | ⟨r', sr', er', hr', _, he', hs'⟩
+  · cases hn
+  · cases hr'
+    have : er' = er := End.unique he' he
+    subst this
+    simp only [linkStart, hrel] at hs'
+    omega
+
+/-- a group (latest-of) link refers to a member of the group that ends latest; the first one wins ties. -/
+theorem group_reference_is_latest (best : Nat × Int) (xs : List (Nat × Int)) :
+    (pickLatest best xs = best ∨ pickLatest best xs ∈ xs) ∧
+    best.2 ≤ (pickLatest best xs).2 ∧ ∀ x ∈ xs, x.2 ≤ (pickLatest best xs).2 := by
+  unfold pickLatest
+  induction xs generalizing best with
+  | nil => simp
+  | cons x xs ih =>
+    simp only [List.foldl_cons, List.mem_cons]
+    by_cases hx : x.2 > best.2
+    · simp only [hx, if_true]
+      obtain ⟨h1, h2, h3⟩ := ih x
+      refine ⟨?_, by omega, ?_⟩
+      · rcases h1 with h1 | h1
+        · exact Or.inr (Or.inl h1)
+        · exact Or.inr (Or.inr h1)
+      · intro y hy
+        rcases hy with rfl | hy
+        · exact h2
+        · exact h3 y hy
+    · simp only [hx, if_false]
+      obtain ⟨h1, h2, h3⟩ := ih best
+      refine ⟨?_, h2, ?_⟩
+      · rcases h1 with h1 | h1
+        · exact Or.inl h1
+        · exact Or.inr (Or.inr h1)
+      · intro y hy
+        rcases hy with rfl | hy
+        · omega
+        · exact h3 y hy
+
+/-! ### uniqueness of the schedule -/
+
+/-- a candidate schedule: start `S`, lead `L`, duration `D` of every object and reference `R` of every link,
+    satisfying the local relation equations of the heap `w`. -/
+structure Sol (w : World) (S L D : Nat → Int) (R : Nat → Option Nat) : Prop where
+  leaf : ∀ o, (w.op o).isComp = false → L o = 0 ∧ D o = w.leafDur (w.op o).dur
+  empty : ∀ o, (w.op o).isComp = true → (w.op o).graph.isEmpty = true → L o = 0 ∧ D o = 0
+  comp : ∀ o, (w.op o).isComp = true → (w.op o).graph.isEmpty = false →
+    (L o, D o) = leadSpan ((heads (w.op o).graph).map S)
+      ((listing (w.op o).graph).map (fun n => (S n - L n, S n - L n + D n)))
+  start : ∀ o, S o = linkStart (w.lnk (w.op o).link).rel
+      ((R (w.op o).link).map (fun r => (S r, S r + D r))) (D o)
+  refSingle : ∀ l, (w.lnk l).multi = false → R l = (w.lnk l).refs.head?
+  refMulti : ∀ l, (w.lnk l).multi = true → R l =
+    match (w.lnk l).refs with
+    | [] => none
+    | r0 :: _ => some (pickLatest (r0, S r0 + D r0) ((w.lnk l).refs.map (fun r => (r, S r + D r)))).1
+
+theorem mapM_eq_map {α β} (f : α → Option β) (g : α → β) (l : List α) (ys : List β)
+    (h : l.mapM f = some ys) (hg : ∀ a ∈ l, ∀ v, f a = some v → v = g a) : ys = l.map g := by
+  induction l generalizing ys with
+  | nil => simp at h; simp [h]
+  | cons x xs ih =>
+    rw [List.mapM_cons] at h
+    cases hx : f x with
+    | none => rw [hx] at h; simp at h
+    | some y =>
+      rw [hx] at h
+      cases hxs : xs.mapM f with
+      | none => rw [hxs] at h; simp at h
+      | some zs =>
+        rw [hxs] at h
+        simp only [Option.pure_def, Option.bind_eq_bind, Option.bind_some, Option.some.injEq] at h
+        subst h
+        rw [List.map_cons, hg x List.mem_cons_self y hx, ih zs hxs (fun a ha v hv => hg a (List.mem_cons_of_mem _ ha) v hv)]
+
+/-- **the schedule is the unique solution of the relation equations**: any assignment of starts, leads,
+    durations and references that satisfies the local equations coincides with what the evaluator reports,
+    wherever the evaluator reports anything. -/
+theorem schedule_unique {w : World} {S L D : Nat → Int} {R : Nat → Option Nat} (sol : Sol w S L D R) : ∀ f : Nat,
+    (∀ o v, evLeadSpan w f o = some v → v = (L o, D o)) ∧
+    (∀ o v, evInterval w f o = some v → v = (S o - L o, S o - L o + D o)) ∧
+    (∀ o v, evDur w f o = some v → v = D o) ∧
+    (∀ o v, evStart w f o = some v → v = S o) ∧
+    (∀ o v, evEnd w f o = some v → v = S o + D o) ∧
+    (∀ l v, evRef w f l = some v → v = R l) := by
+  intro f
+  induction f with
+  | zero =>
+    refine ⟨?_, ?_, ?_, ?_, ?_, ?_⟩ <;> intro o v h
+    · rw [evLeadSpan.eq_1] at h; cases h
+    · rw [evInterval.eq_1] at h; cases h
+    · rw [evDur.eq_1] at h; cases h
+    · rw [evStart.eq_1] at h; cases h
+    · rw [evEnd.eq_1] at h; cases h
+    · rw [evRef.eq_1] at h; cases h
+  | succ f ih =>
+    obtain ⟨ihLS, ihIv, ihD, ihS, ihE, ihR⟩ := ih
+    refine ⟨?_, ?_, ?_, ?_, ?_, ?_⟩
+    · intro o v h
+      rw [evLeadSpan.eq_2] at h
+      by_cases hc : (w.op o).isComp = true
+      · rw [if_pos hc] at h
+        by_cases he : (w.op o).graph.isEmpty = true
+        · rw [if_pos he] at h
+          obtain ⟨h1, h2⟩ := sol.empty o hc he
+          cases h; rw [h1, h2]
+        · rw [if_neg he] at h
+          have he' : (w.op o).graph.isEmpty = false := by simpa using he
+          cases h1 : (heads (w.op o).graph).mapM (fun n => evStart w f n) with
+          | none => rw [h1] at h; cases h
+          | some hs =>
+            rw [h1] at h
+            cases h2 : (listing (w.op o).graph).mapM (fun n => evInterval w f n) with
+            | none => rw [h2] at h; cases h
+            | some ivs =>
+              rw [h2] at h
+              simp only [Option.bind_eq_bind, Option.bind_some, Option.some.injEq] at h
+              have e1 := mapM_eq_map _ S _ hs h1 (fun a _ v hv => ihS a v hv)
+              have e2 := mapM_eq_map _ (fun n => (S n - L n, S n - L n + D n)) _ ivs h2 (fun a _ v hv => ihIv a v hv)
+              rw [← h, e1, e2]
+              exact (sol.comp o hc he').symm
+      · rw [if_neg hc] at h
+        have hc' : (w.op o).isComp = false := by simpa using hc
+        obtain ⟨h1, h2⟩ := sol.leaf o hc'
+        cases h; rw [h1, h2]
+    · intro o v h
+      rw [evInterval.eq_2] at h
+      cases h1 : evStart w f o with
+      | none => rw [h1] at h; cases h
+      | some s =>
+        rw [h1] at h
+        cases h2 : evLeadSpan w f o with
+        | none => rw [h2] at h; cases h
+        | some ls =>
+          rw [h2] at h
+          have hs := ihS o s h1
+          have hl := ihLS o ls h2
+          subst hs; subst hl
+          simp only [Option.bind_eq_bind, Option.bind_some, Option.some.injEq] at h
+          exact h.symm
+    · intro o v h
+      rw [evDur.eq_2] at h
+      cases h1 : evLeadSpan w f o with
+      | none => rw [h1] at h; cases h
+      | some ls =>
+        rw [h1] at h
+        have hl := ihLS o ls h1
+        subst hl
+        simpa using h.symm
+    · intro o v h
+      rw [evStart_succ] at h
+      cases h1 : evDur w f o with
+      | none => rw [h1] at h; cases h
+      | some d =>
+        rw [h1] at h
+        have hd := ihD o d h1
+        subst hd
+        cases h2 : evRef w f (w.op o).link with
+        | none => rw [h2] at h; cases h
+        | some r =>
+          rw [h2] at h
+          have hr := ihR _ r h2
+          cases r with
+          | none =>
+            simp only [Option.bind_eq_bind, Option.bind_some, Option.some.injEq] at h
+            rw [sol.start o, ← hr]; exact h.symm
+          | some r =>
+            simp only [Option.bind_eq_bind, Option.bind_some] at h
+            cases h3 : evStart w f r with
+            | none => rw [h3] at h; cases h
+            | some s =>
+              rw [h3] at h
+              cases h4 : evEnd w f r with
+              | none => rw [h4] at h; cases h
+              | some e =>
+                rw [h4] at h
+                simp only [Option.bind_some, Option.some.injEq] at h
+                have hs := ihS r s h3
+                have he := ihE r e h4
+                subst hs; subst he
+                rw [sol.start o, ← hr]; exact h.symm
+    · intro o v h
+      rw [evEnd.eq_2] at h
+      cases h1 : evStart w f o with
+      | none => rw [h1] at h; cases h
+      | some s =>
+        rw [h1] at h
+        cases h2 : evDur w f o with
+        | none => rw [h2] at h; cases h
+        | some d =>
+          rw [h2] at h
+          have hs := ihS o s h1
+          have hd := ihD o d h2
+          subst hs; subst hd
+          simpa using h.symm
+    · intro l v h
+      rw [evRef.eq_2] at h
+      by_cases hm : (!(w.lnk l).multi) = true
+      · rw [if_pos hm] at h
+        have hm' : (w.lnk l).multi = false := by simpa using hm
+        rw [sol.refSingle l hm']; simpa using h.symm
+      · rw [if_neg hm] at h
+        have hm' : (w.lnk l).multi = true := by simpa using hm
+        have hR := sol.refMulti l hm'
+        cases hr : (w.lnk l).refs with
+        | nil => rw [hr] at h hR; simp only at h hR; rw [hR]; simpa using h.symm
+        | cons r0 rs =>
+          rw [hr] at h hR
+          simp only at h hR
+          cases h1 : (r0 :: rs).mapM (fun r => (evEnd w f r).map (fun e => (r, e))) with
+          | none => rw [h1] at h; cases h
+          | some es =>
+            rw [h1] at h
+            cases h2 : evEnd w f r0 with
+            | none => rw [h2] at h; cases h
+            | some e0 =>
+              rw [h2] at h
+              simp only [Option.bind_eq_bind, Option.bind_some, Option.some.injEq] at h
+              have e1 := mapM_eq_map _ (fun r => (r, S r + D r)) _ es h1 (by
+                intro a _ v hv
+                cases hx : evEnd w f a with
+                | none => rw [hx] at hv; cases hv
+                | some e =>
+                  rw [hx] at hv
+                  have := ihE a e hx
+                  subst this
+                  simpa using hv.symm)
+              have e0' := ihE r0 e0 h2
+              subst e0'
+              rw [hR, ← h, e1]
+
+/-! ### implicit placement -/
+
+/-- an operation added without relation is placed behind the LAST node in listing order that shares a channel,
+    which is a DEEPEST one in relation steps (depth = length of the path key; the listing is breadth first). -/
+theorem implicit_predecessor_is_deepest (g : List Entry) (p : Nat → Bool) {n : Nat}
+    (h : (listing g).reverse.find? p = some n) :
+    p n = true ∧ ∃ e ∈ g, e.node = n ∧ ∀ e' ∈ g, p e'.node = true → e'.key.length ≤ e.key.length := by
+  unfold listing at h
+  rw [← List.map_reverse, List.find?_map] at h
+  cases hf : (sortedEntries g).reverse.find? (p ∘ fun e => e.node) with
+  | none => rw [hf] at h; cases h
+  | some e =>
+    rw [hf] at h
+    simp only [Option.map_some, Option.some.injEq] at h
+    subst h
+    obtain ⟨hp, hmem, hdeep⟩ := last_match_deepest (sortedEntries_depth_sorted g) hf
+    refine ⟨by simpa using hp, e, (sortedEntries_perm g).mem_iff.mp hmem, rfl, ?_⟩
+    intro e' he' hp'
+    exact hdeep e' ((sortedEntries_perm g).mem_iff.mpr he') (by simpa using hp')
+
+/-- `leafAtAny` is that selection, with "shares a channel" = `ChId.matches` on some pair of identifiers. -/
+theorem leafAtAny_spec (w : World) (g : List Entry) (chs : List ChId) {n : Nat} (h : w.leafAtAny g chs = some n) :
+    (chs.any fun a => (w.chansOf n).any fun b => a.matches b) = true ∧
+    ∃ e ∈ g, e.node = n ∧ ∀ e' ∈ g,
+      (chs.any fun a => (w.chansOf e'.node).any fun b => a.matches b) = true → e'.key.length ≤ e.key.length :=
+  implicit_predecessor_is_deepest g _ h
+
+/-- … and when no node shares a channel the operation is hung under the root (starts with the circuit). -/
+theorem leafAtAny_none (w : World) (g : List Entry) (chs : List ChId) (h : w.leafAtAny g chs = none) :
+    ∀ e ∈ g, (chs.any fun a => (w.chansOf e.node).any fun b => a.matches b) = false := by
+  intro e he
+  unfold World.leafAtAny at h
+  rw [List.find?_eq_none] at h
+  have hm : e.node ∈ (listing g).reverse := by
+    rw [List.mem_reverse]; exact mem_listing_iff.mpr ⟨e, he, rfl⟩
+  simpa using h e.node hm
+
+/-- the implicit link: an operation without relation for which a channel-sharing node `lf` exists is hung
+    under `lf` and receives a fresh single FOLLOWED_BY link to `lf`. -/
+theorem add_implicit_link (w : World) (g : List Entry) (o lf : Nat) (ho : o < w.ops.size)
+    (hrel : w.hasRel o = false) (hleaf : w.leafAtAny g (w.chansOf o) = some lf) :
+    (w.addToGraph g o).2 = attach g (some lf) o ∧
+    (w.addToGraph g o).1.lnk ((w.addToGraph g o).1.op o).link = ({ refs := [lf], rel := .fb } : Link) := by
+  constructor
+  · unfold World.addToGraph
+    simp only [hrel, hleaf, Bool.not_false, if_true]
+  · unfold World.addToGraph
+    simp [hrel, hleaf, World.newLink, World.setLink, World.setOp, World.op, World.lnk, ho]
+
+/-- … and with no channel-sharing node it is hung under the root and keeps its (reference-less) link. -/
+theorem add_first_in_channel (w : World) (g : List Entry) (o : Nat)
+    (hrel : w.hasRel o = false) (hleaf : w.leafAtAny g (w.chansOf o) = none) :
+    w.addToGraph g o = (w, attach g none o) := by
+  unfold World.addToGraph
+  simp only [hrel, hleaf, Bool.not_false, if_true]
+
+/-- an explicit relation whose reference is a node of the graph is kept: the operation is hung under it. -/
+theorem add_explicit_kept (w : World) (g : List Entry) (o r : Nat)
+    (hrel : w.hasRel o = true) (href : w.refOf (w.op o).link = some (some r)) (hin : inGraph g r = true) :
+    w.addToGraph g o = (w, attach g (some r) o) := by
+  unfold World.addToGraph
+  simp only [hrel, href, hin, Bool.not_true, Bool.false_eq_true, if_false, if_true]
+
+/-- non-vacuity of `Sol`/`schedule_unique`: the heap "Rx180(q0); Wait(q0, 2.0) FOLLOWED_BY it" and its schedule. -/
+def exWorld : World :=
+  { ops := #[{ cls := .rx180, qs := [0], dur := .glob .mw, link := 1 },
+             { cls := .wait, qs := [0], dur := .fixed 16, link := 2 }],
+    links := #[{}, {}, { refs := [0] }] }
+
+example : evStart exWorld 10 1 = some 8 ∧ evEnd exWorld 10 1 = some 24 := by decide +kernel
+
 end Qco.C01
